@@ -9,6 +9,8 @@ import (
 	"io"
 	"math/rand"
 	"net"
+	"os"
+	"path/filepath"
 	"strings"
 	"sync"
 	"sync/atomic"
@@ -280,10 +282,10 @@ type bufReaderConn struct {
 func (b *bufReaderConn) Read(p []byte) (int, error) { return b.br.Read(p) }
 
 type c09Rig struct {
-	rg                           *rig
-	up, upTLS                    *c09Upstream
-	specs                        sync.Map
-	tcpA, tcpPP, sniA, dynA, wsA string
+	rg                                   *rig
+	up, upTLS                            *c09Upstream
+	specs                                sync.Map
+	tcpA, tcpPP, sniA, dynA, wsA, tcpTLS string
 }
 
 func newC09Rig(c *ctx) (*c09Rig, error) {
@@ -302,11 +304,17 @@ func newC09Rig(c *ctx) (*c09Rig, error) {
 	r.upTLS = &c09Upstream{ln: tln, specs: &r.specs}
 	go r.upTLS.serve()
 	upAddr := ln.Addr().String()
-	pt, pp, ps, pd, pw, dynPort := freePort(), freePort(), freePort(), freePort(), freePort(), freePort()
+	pt, pp, ps, pd, pw, dynPort, ptls := freePort(), freePort(), freePort(), freePort(), freePort(), freePort(), freePort()
+	r.tcpTLS = fmt.Sprintf("127.0.0.1:%d", ptls)
+	certDir := filepath.Join(c.Dir, "c09cert")
+	os.MkdirAll(certDir, 0o755)
+	lcrt := c11Make("l-cert.pem", "tunnel.test")
+	os.WriteFile(filepath.Join(certDir, "l-cert.pem"), lcrt.CertPEM, 0o644)
+	os.WriteFile(filepath.Join(certDir, "l-key.pem"), lcrt.KeyPEM, 0o644)
 	r.tcpA, r.tcpPP, r.sniA, r.wsA = fmt.Sprintf("127.0.0.1:%d", pt), fmt.Sprintf("127.0.0.1:%d", pp), fmt.Sprintf("127.0.0.1:%d", ps), fmt.Sprintf("127.0.0.1:%d", pw)
 	r.dynA = fmt.Sprintf("127.0.0.1:%d", dynPort)
-	addr := fmt.Sprintf("%s;proto=tcp,%s;proto=tcp,%s;proto=tcp+sni,127.0.0.1:%d;proto=tcp-dynamic;refresh=1s,%s;proto=http", r.tcpA, r.tcpPP, r.sniA, pd, r.wsA)
-	rg, err := newRig(c, "tcp", []string{"-proxy.addr", addr, "-log.level", "WARN"})
+	addr := fmt.Sprintf("%s;proto=tcp,%s;proto=tcp,%s;proto=tcp+sni,127.0.0.1:%d;proto=tcp-dynamic;refresh=1s,%s;proto=http,%s;proto=tcp;cs=cs1", r.tcpA, r.tcpPP, r.sniA, pd, r.wsA, r.tcpTLS)
+	rg, err := newRig(c, "tcp", []string{"-proxy.addr", addr, "-proxy.cs", "cs=cs1;type=path;cert=" + certDir, "-log.level", "WARN"})
 	if err != nil {
 		ln.Close()
 		return nil, err
@@ -318,6 +326,7 @@ func newC09Rig(c *ctx) (*c09Rig, error) {
 		fmt.Sprintf("route add snisvc sni.test/ tcp://%s opts \"proto=tcp\"", upAddr),
 		fmt.Sprintf("route add snipp snipp.test/ tcp://%s opts \"proto=tcp pxyproto=true\"", upAddr),
 		fmt.Sprintf("route add dynsvc 127.0.0.1:%d tcp://%s", dynPort, upAddr),
+		fmt.Sprintf("route add tcptls :%d tcp://%s opts \"proto=tcp\"", ptls, upAddr),
 		fmt.Sprintf("route add wssvc ws.test/ http://%s/", upAddr),
 		fmt.Sprintf("route add wsssvc wss.test/ https://%s/ opts \"tlsskipverify=true\"", tln.Addr().String()),
 	}
@@ -326,7 +335,7 @@ func newC09Rig(c *ctx) (*c09Rig, error) {
 		r.close()
 		return nil, err
 	}
-	for _, a := range []string{r.tcpA, r.tcpPP, r.sniA, r.wsA, r.dynA} {
+	for _, a := range []string{r.tcpA, r.tcpPP, r.sniA, r.wsA, r.dynA, r.tcpTLS} {
 		if !fabioproc.WaitListening(a, 30*time.Second) {
 			r.close()
 			return nil, fmt.Errorf("listener %s did not come up\n%s", a, rg.proc.LogTail(1500))
@@ -375,7 +384,7 @@ func c09Tunnels(c *ctx) {
 			r := c.rng(int64(900 + g))
 			for i := g; i < n; i += G {
 				sp := &c09Spec{ID: fmt.Sprintf("%016x", uint64(seq.Add(1))|uint64(c.Seed)<<40), upDone: make(chan struct{})}
-				sp.Kind = choose(r, []string{"tcp", "tcp-pp", "sni", "sni", "sni-pp", "dyn", "ws", "ws", "wss"})
+				sp.Kind = choose(r, []string{"tcp", "tcp-pp", "sni", "sni", "sni-pp", "dyn", "ws", "ws", "wss", "tcp-tls", "tcp-tls"})
 				sp.SeedC, sp.SeedU = r.Uint64(), r.Uint64()
 				size := func() int64 {
 					switch x := r.Intn(12); {
@@ -418,7 +427,7 @@ func c09Tunnels(c *ctx) {
 
 func c09Conn(c *ctx, rg *c09Rig, sp *c09Spec, hello map[string][]byte, r *rand.Rand, bc, bu *atomic.Int64) {
 	c.R.Eval(1)
-	addr := map[string]string{"tcp": rg.tcpA, "tcp-pp": rg.tcpPP, "sni": rg.sniA, "sni-pp": rg.sniA, "dyn": rg.dynA, "ws": rg.wsA, "wss": rg.wsA}[sp.Kind]
+	addr := map[string]string{"tcp": rg.tcpA, "tcp-pp": rg.tcpPP, "sni": rg.sniA, "sni-pp": rg.sniA, "dyn": rg.dynA, "ws": rg.wsA, "wss": rg.wsA, "tcp-tls": rg.tcpTLS}[sp.Kind]
 	class := fmt.Sprintf("%s/w%d/pause=%v/slow=%v/%s", sp.Kind, sp.WriteMax, sp.Pause, sp.SlowRead, sp.Close)
 	if strings.HasPrefix(sp.Kind, "sni") {
 		class += "/hello-" + sp.HelloMode
@@ -441,11 +450,22 @@ func c09Conn(c *ctx, rg *c09Rig, sp *c09Spec, hello map[string][]byte, r *rand.R
 		return
 	}
 	defer conn.Close()
-	tc := conn.(*net.TCPConn)
-	tc.SetNoDelay(true)
+	rawTCP := conn.(*net.TCPConn)
+	rawTCP.SetNoDelay(true)
 	conn.SetDeadline(time.Now().Add(40 * time.Second))
 	if sp.SlowRead {
-		tc.SetReadBuffer(4096)
+		rawTCP.SetReadBuffer(4096)
+	}
+	var tc interface{ CloseWrite() error } = rawTCP
+	if sp.Kind == "tcp-tls" {
+		// fabio terminates TLS on this listener; a TLS 1.2 client sends its last record and close_notify back to back
+		tconn := tls.Client(conn, &tls.Config{InsecureSkipVerify: true, MaxVersion: choose(r, []uint16{tls.VersionTLS12, tls.VersionTLS12, tls.VersionTLS13})})
+		if err := tconn.Handshake(); err != nil {
+			viol("tls-handshake-failed", err.Error())
+			return
+		}
+		conn = tconn
+		tc = tconn
 	}
 	prelude := []byte("VC" + sp.ID + "\r\n")
 	var sniHello []byte
